@@ -122,10 +122,16 @@ def run_batcher(plan: dict, strategy, max_steps=40000):
             calls.append({"tok": int(checkpoint_token), "items": items, "ok": True,
                           "bytes": sum(sizes[i] for i in items)})
             emit("ApiRet", ok=True)
+            if plan.get("page_fail_at") == n:
+                # the answer is paginated; fetching the next page will fail
+                return CheckpointOutput(checkpoint_token=str(n),
+                                        new_execution_state=CheckpointUpdatedExecutionState(next_marker="page-2"))
             return CheckpointOutput(checkpoint_token=str(n), new_execution_state=CheckpointUpdatedExecutionState())
 
-        def get_execution_state(self, **kw):
-            raise AssertionError("not used")
+        def get_execution_state(self, *a, **kw):
+            calls[-1]["page_failed"] = True
+            emit("PageFail")
+            raise ApiBoom("fetching the next page of the checkpoint response failed")
 
     saved = sdk_thr.Event
     sdk_thr.Event = LEvent
@@ -217,5 +223,6 @@ def random_plan(rng: random.Random, allow_oversize=True, allow_fail=True):
     plan = {"producers": producers, "maxops": rng.choice([2, 3, 250]), "maxbytes": maxbytes,
             "window": rng.choice([0.0, 0.05, 0.3, 1.0]),
             "fail_at": (rng.choice([1, 2, 3]) if (allow_fail and rng.random() < 0.35) else None),
+            "page_fail_at": (rng.choice([1, 2, 3]) if (allow_fail and rng.random() < 0.2) else None),
             "stagger": [[rng.choice([0.0, 0.0, 0.05, 0.2, 1.1])] for _ in range(nprod)]}
     return plan
